@@ -230,7 +230,7 @@ def run_recorded(prop, preds):
         r["cache_hit"] = True
     else:
         t0 = time.time()
-        work = os.path.join(WORK, "rec")
+        work = os.path.join(WORK, prop, "rec")
         shutil.rmtree(work, ignore_errors=True)
         os.makedirs(work, exist_ok=True)
         rep = os.path.join(work, "report")
@@ -258,21 +258,125 @@ def run_recorded(prop, preds):
         if errors or tot["traces"] == 0:
             print(f"MACHINERY-FAILURE: trace validation of the repository tests failed: {errors[:2]} {tail}")
             sys.exit(2)
-        cands = []
-        seen = set()
-        for r_ in reports:
-            for pred in r_["v"]:
-                sig_key = (pred, json.dumps(r_["call"], sort_keys=True), r_["out"])
-                if sig_key in seen:
-                    continue
-                seen.add(sig_key)
-                cands.append((pred, r_))
+        cands = _rec_candidates(reports)
         r = {"tag": tag, "tlc": _Res(tot["tlc_states"], tot["tlc_states"], time.time() - t0, " ".join(cmd)),
              "expect": 0, "leaves": 0, "steps": tot["lines"], "compared": tot["lines"], "mismatches": 0,
              "mismatch_samples": [], "drift_lines": sum(1 for x in reports if x["drift"]),
              "traces_checked": tot["traces"], "tv_states": tot["tlc_states"], "rec_cands": cands,
              "sample_keys": [], "rec_samples": samples[:3], "pytest": tail, "prefix_ended_by": dead, "ops": ops,
              "sequences_seen": tot["sequences_seen"], "cache_hit": False,
+             "run_wall_s": round(time.time() - t0, 1)}
+        with open(cpath + ".tmp", "wb") as fh:
+            pickle.dump(r, fh)
+        os.replace(cpath + ".tmp", cpath)
+    r = dict(r)
+    r["cands"] = []
+    r["rec"] = [(p_, rr) for p_, rr in r["rec_cands"] if p_.startswith(tuple(preds))]
+    return r
+
+
+def _rec_candidates(reports):
+    cands, seen = [], set()
+    for r_ in reports:
+        for pred in r_["v"]:
+            sig_key = (pred, json.dumps(r_["call"], sort_keys=True), r_["out"], _chan_empty(r_))
+            if sig_key in seen:
+                continue
+            seen.add(sig_key)
+            cands.append((pred, r_))
+    return cands
+
+
+def _chan_empty(rr):
+    """State feature of a recorded transition (same as `signature`): was the call's channel empty?"""
+    c, pre = rr.get("call") or {}, rr.get("pre_state")
+    if pre is not None and "nm" in c:
+        for ch in pre.get("ch", []):
+            if ch["nm"] == c["nm"]:
+                return ch["du"] == 0
+    return None
+
+
+def _change_features(rr):
+    """What a recorded transition changed: the top-level fields that differ and the kinds of the slots
+    appended to the call's channel (so that a finding about one partial effect names exactly it)."""
+    pre, post, c = rr.get("pre_state"), rr.get("real_state"), rr.get("call") or {}
+    if not pre or not post:
+        return {}
+    f = {"changed": "+".join(sorted(k for k in post if post.get(k) != pre.get(k)))}
+    if "nm" in c:
+        a = [ch for ch in pre.get("ch", []) if ch["nm"] == c["nm"]]
+        b = [ch for ch in post.get("ch", []) if ch["nm"] == c["nm"]]
+        if a and b and b[0]["sl"][:len(a[0]["sl"])] == a[0]["sl"]:
+            f["appended"] = "+".join(str(sl["k"]) for sl in b[0]["sl"][len(a[0]["sl"]):])
+            f["eom_blocks_changed"] = a[0]["eb"] != b[0]["eb"]
+    return f
+
+
+RAND_SIZE = {"quick": (6, 25), "thorough": (48, 40)}     # (random devices, programs per device)
+
+
+def run_random(prop, preds, tier):
+    """Code -> spec with the randomized driver (harness/randdriver.py): long random programs on random
+    devices, recorded on the tree and validated by TLC.  Own process (the recorder patches Sequence),
+    memoised on the tree digest."""
+    import pickle
+    import subprocess
+    from .env import REPO, VERIF
+    nw, pw = RAND_SIZE[tier]
+    tag = f"randprog-{nw}x{pw}"
+    cdir = os.path.join(WORK, "cache")
+    os.makedirs(cdir, exist_ok=True)
+    cpath = os.path.join(cdir, f"{tag}-{tree_digest(tag)}.pkl")
+    if os.path.exists(cpath) and not os.environ.get("VERIF_NOCACHE"):
+        with open(cpath, "rb") as fh:
+            r = pickle.load(fh)
+        r["cache_hit"] = True
+    else:
+        t0 = time.time()
+        work = os.path.join(WORK, prop, "randprog")
+        shutil.rmtree(work, ignore_errors=True)
+        os.makedirs(work, exist_ok=True)
+        env = dict(os.environ)
+        env.update({"MPLBACKEND": "Agg", "PYTHONPATH": f"{VERIF}:{REPO}/pulser-core:{REPO}/pulser-simulation"})
+        # several processes, each with its own slice of the random devices
+        nproc = 1 if tier == "quick" else 8
+        procs = []
+        for k in range(nproc):
+            share = nw // nproc + (1 if k < nw % nproc else 0)
+            if share == 0:
+                continue
+            out = os.path.join(work, f"report{k}.json")
+            cmd = ["/venv/bin/python", "-m", "harness.randdriver", str(seed() * 1000 + k), str(share), str(pw), out]
+            procs.append((subprocess.Popen(cmd, cwd=VERIF, env=env, stdout=subprocess.PIPE, stderr=subprocess.STDOUT,
+                                           text=True), out, cmd))
+        tot = {"traces": 0, "lines": 0, "tlc_states": 0, "sequences_seen": 0}
+        reports, errors, samples, dead, ops = [], [], [], {}, {}
+        for pr, out, cmd in procs:
+            so, _ = pr.communicate()
+            if pr.returncode != 0 or not os.path.exists(out):
+                print(f"MACHINERY-FAILURE: random driver failed: {so[-1500:]}")
+                sys.exit(2)
+            with open(out) as fh:
+                d = json.load(fh)
+            for k in tot:
+                tot[k] += d["summary"][k]
+            errors += d["summary"]["errors"]
+            reports += d["reports"]
+            samples += d["samples"]
+            for k, v in d["summary"]["prefix_ended_by"].items():
+                dead[k] = dead.get(k, 0) + v
+            for k, v in d["summary"]["ops"].items():
+                ops[k] = ops.get(k, 0) + v
+        if errors or tot["traces"] == 0:
+            print(f"MACHINERY-FAILURE: trace validation of the random programs failed: {errors[:2]}")
+            sys.exit(2)
+        r = {"tag": tag, "tlc": _Res(tot["tlc_states"], tot["tlc_states"], time.time() - t0, " ".join(procs[0][2])),
+             "expect": 0, "leaves": 0, "steps": tot["lines"], "compared": tot["lines"], "mismatches": 0,
+             "mismatch_samples": [], "drift_lines": sum(1 for x in reports if x["drift"]),
+             "traces_checked": tot["traces"], "tv_states": tot["tlc_states"], "rec_cands": _rec_candidates(reports),
+             "sample_keys": [], "rec_samples": samples[:2], "pytest": f"{nw} random devices x {pw} programs",
+             "prefix_ended_by": dead, "ops": ops, "sequences_seen": tot["sequences_seen"], "cache_hit": False,
              "run_wall_s": round(time.time() - t0, 1)}
         with open(cpath + ".tmp", "wb") as fh:
             pickle.dump(r, fh)
@@ -306,8 +410,10 @@ def decide(prop, preds, runs, tier, t0, level_note=""):
             c = rr["call"] or {}
             sig = {"pred": pred, "out": rr["out"]}
             sig.update({k: v for k, v in c.items() if isinstance(v, (str, int, bool))})
-            hist = rr.get("history") or []
-            pre_state = None
+            ce = _chan_empty(rr)
+            if ce is not None:
+                sig["chan_empty_before"] = ce
+            sig.update(_change_features(rr))
             e = findings.match(prop, sig, known)
             if e is not None:
                 kf.setdefault(e["id"], [e, 0])[1] += 1
@@ -321,9 +427,10 @@ def decide(prop, preds, runs, tier, t0, level_note=""):
         rc = 1
         os.makedirs(os.path.join(WORK, prop, "replay"), exist_ok=True)
         for n_, (pred, rr, sig) in enumerate(rec_viol[:8], 1):
-            path = os.path.join(WORK, prop, "replay", f"repotests-{n_}.json")
+            src_ = "randprog" if str(rr.get("origin", "")).startswith("randprog") else "repotests"
+            path = os.path.join(WORK, prop, "replay", f"{src_}-{n_}.json")
             with open(path, "w") as fh:
-                json.dump({"property": prop, "config": "repotests", "pred": pred, "origin": rr.get("origin"),
+                json.dump({"property": prop, "config": src_, "pred": pred, "origin": rr.get("origin"),
                            "history": rr.get("history"), "signature": sig}, fh, indent=1, default=str)
             print(f"VIOLATION property={prop} replay={path}")
             print(f"  {pred} in {rr.get('origin')} after {json.dumps(rr.get('history'), default=str)[:300]} [recorded]")
@@ -353,7 +460,7 @@ def decide(prop, preds, runs, tier, t0, level_note=""):
         for k in r["sample_keys"]:
             samples.append({"config": r["tag"], "calls": describe(cfg, k)})
         for sm in r.get("rec_samples", []):
-            samples.append({"config": "repotests", **sm})
+            samples.append({"config": r["tag"], **sm})
     cov = {
         "states": states, "transitions": trans,
         "traces_validated_against_impl": sum(r["leaves"] + r["traces_checked"] for _, r in runs),
@@ -372,7 +479,7 @@ def decide(prop, preds, runs, tier, t0, level_note=""):
                         "depth": cfg.max_depth, "calls_in_lattice": len(cfg.calls),
                         **({"pytest": r["pytest"], "sequences_recorded": r["sequences_seen"],
                             "recorded_lines_validated": r["steps"], "prefix_ended_by": r["prefix_ended_by"],
-                            "recorded_ops": r["ops"]} if r["tag"] == "repotests" else {}),
+                            "recorded_ops": r["ops"]} if r["tag"] == "repotests" or r["tag"].startswith("randprog") else {}),
                         "leaves_replayed": r["leaves"], "mismatches": r["mismatches"],
                         "memoised_on_tree_digest": r.get("cache_hit", False),
                         "explore_replay_wall_s": r.get("run_wall_s"),
